@@ -1,16 +1,34 @@
 ---------------------------- MODULE MC_Concurrent ----------------------------
-EXTENDS Concurrent
+EXTENDS Concurrent, ConcurrentDecl
 CONSTANT NP
 MCProcs == 1..NP
 MCNames == {"n1", "n2", "n3"}
 MCKind == [p \in 1..NP |-> IF p % 2 = 1 THEN "gff" ELSE "gtf"]
 \* generator: the order in which processes take their four shared-state steps (Mk, Wr, Rd, Rm)
-VARIABLE sched
-GInit == Init /\ sched = <<>>
-GNext == \E p \in MCProcs :
+VARIABLES sched, evs
+GInit == Init /\ sched = <<>> /\ evs = <<>>
+GNext == UNCHANGED evs /\ \E p \in MCProcs :
            \/ (Populate(p) \/ Ins(p)) /\ sched' = sched
            \/ ((\E n \in MCNames : Mk(p, n)) \/ Wr(p) \/ Rd(p) \/ Rm(p)) /\ sched' = Append(sched, p)
 EmitSched == AllDone => PrintT(<<"SCHED", sched>>)
+\* refinement: every behaviour of the code-shaped protocol, written down as the events the scheduler would record, is accepted by
+\* the declarative judge (ConcurrentDecl) - and with names that are not fresh it is not (the cfg with NameMode = "fixed" must break this)
+Listing == DOMAIN tmp
+EInit == Init /\ evs = <<>> /\ sched = <<>>
+Ev(p, e, n, c) == [p |-> p, ev |-> e, name |-> n, listing |-> Listing, content |-> c, outok |-> TRUE]
+ENext == UNCHANGED sched /\ \E p \in MCProcs :
+           \/ (Populate(p) \/ Ins(p)) /\ evs' = evs
+           \/ \E n \in MCNames : Mk(p, n) /\ evs' = Append(evs, [Ev(p, "mk", n, <<>>) EXCEPT !.listing = Listing])
+           \/ Wr(p) /\ evs' = Append(evs, Ev(p, "wr", myTmp[p], <<>>))
+           \/ Rd(p) /\ evs' = Append(evs, Ev(p, "rd", myTmp[p], IF Exists(S, myTmp[p]) THEN tmp[myTmp[p]].data ELSE <<"missing">>))
+           \/ Rm(p) /\ evs' = Append(evs, Ev(p, "rm", myTmp[p], <<>>))
+           \/ pc[p] = "done" /\ ~(\E k \in 1..Len(evs) : evs[k].p = p /\ evs[k].ev = "done") /\ UNCHANGED vars
+              /\ evs' = Append(evs, [Ev(p, "done", "", <<>>) EXCEPT !.outok = (outDb[p] = Import(p, Data(p)))])
+SetToSeq2(s) == LET RECURSIVE f(_) f(x) == IF x = {} THEN <<>> ELSE LET m == CHOOSE y \in x : TRUE IN <<m>> \o f(x \ {m}) IN f(s)
+AsTrace == [np |-> NP, gated |-> TRUE, solo |-> [p \in MCProcs |-> <<Data(p)>>], final |-> SetToSeq2(DOMAIN tmp),
+            events |-> [k \in 1..Len(evs) |-> [evs[k] EXCEPT !.listing = SetToSeq2(evs[k].listing)]]]
+AllReported == \A p \in MCProcs : \E k \in 1..Len(evs) : evs[k].p = p /\ evs[k].ev = "done"
+DeclAccepts == AllReported => DJudge(AsTrace).clause = "ok"
 \* private steps commute with everything: take them eagerly so that each schedule is printed once
 Eager == \A p \in MCProcs : pc[p] \notin {"start", "ins"}
 =============================================================================
